@@ -12,6 +12,8 @@ def run(ctx):
     xb.t1(ctx)
     ctx.prove()
     xb.part_c01(ctx)
+    xb.part_c01_ext(ctx)
+    xb.part_c01_client(ctx)
 
 
 def replay(ctx, obj):
